@@ -8,6 +8,7 @@ package main
 import (
 	"fmt"
 	"go/token"
+	"strings"
 
 	"gclverify/xt/ssa"
 )
@@ -149,6 +150,84 @@ func normCond(v ssa.Value) (ssa.Value, bool) {
 	}
 }
 
+// curProg is the program being analysed (set by runRules); the path engine asks it which fields are immutable.
+var curProg *Prog
+
+type canonCond struct {
+	lhs, rhs string
+	op       token.Token
+	ok       bool
+}
+
+var canonCache = map[ssa.Value]canonCond{}
+
+func operandKey(v ssa.Value) string {
+	v = strip(v, false)
+	switch x := v.(type) {
+	case *ssa.Const:
+		if x.Value == nil {
+			return "c:nil:" + x.Type().String()
+		}
+		return "c:" + x.Value.ExactString() + ":" + x.Type().String()
+	case *ssa.Parameter:
+		return "p:" + x.Name()
+	}
+	if fr, base, ok := loadedField(v); ok && curProg != nil && curProg.FieldImmutable(fr) {
+		ap := AccessPath(base)
+		switch ap.Root.(type) {
+		case *ssa.Parameter, *ssa.FreeVar:
+			for _, f := range ap.Fields {
+				if !curProg.FieldImmutable(f) {
+					return ""
+				}
+			}
+			return "f:" + ap.String() + "." + fr.Name
+		}
+	}
+	return ""
+}
+
+// canon: a comparison whose operands are constants, parameters and loads of immutable fields reached from a parameter
+// has the same truth value wherever it is evaluated in one activation of the function (two loads of such a field are
+// equal). Such comparisons are identified by their operands, not by the SSA value that computes them.
+func canon(c ssa.Value) canonCond {
+	if cc, ok := canonCache[c]; ok {
+		return cc
+	}
+	var cc canonCond
+	if b, ok := c.(*ssa.BinOp); ok {
+		switch b.Op {
+		case token.LSS, token.LEQ, token.GTR, token.GEQ, token.EQL, token.NEQ:
+			l, r := operandKey(b.X), operandKey(b.Y)
+			if l != "" && r != "" && (strings.HasPrefix(l, "f:") || strings.HasPrefix(r, "f:")) {
+				cc = canonCond{lhs: l, rhs: r, op: b.Op, ok: true}
+			}
+		}
+	}
+	canonCache[c] = cc
+	return cc
+}
+
+// impliedBy: the truth of cond a (canonical) given that cond b (canonical) has truth tb; ok=false when unrelated.
+func impliedBy(a, b canonCond, tb bool) (bool, bool) {
+	if !a.ok || !b.ok {
+		return false, false
+	}
+	if a.lhs == b.rhs && a.rhs == b.lhs {
+		b = canonCond{lhs: b.rhs, rhs: b.lhs, op: flipOp(b.op), ok: true}
+	}
+	if a.lhs != b.lhs || a.rhs != b.rhs {
+		return false, false
+	}
+	if a.op == b.op {
+		return tb, true
+	}
+	if a.op == negOp(b.op) {
+		return !tb, true
+	}
+	return false, false
+}
+
 type pathEnum struct {
 	fn       *ssa.Function
 	max      int
@@ -277,6 +356,16 @@ func (e *pathEnum) dfs(b *ssa.BasicBlock) {
 				if rc != nil && e.facts[i].Cond == rc {
 					known, val = true, e.facts[i].True != rneg
 					break
+				}
+			}
+			if !known {
+				cc := canon(c)
+				if cc.ok {
+					for i := len(e.facts) - 1; i >= 0 && !known; i-- {
+						if t, ok := impliedBy(cc, canon(e.facts[i].Cond), e.facts[i].True); ok {
+							known, val = true, t
+						}
+					}
 				}
 			}
 			if known {
